@@ -1,14 +1,19 @@
 import AtreeProofs.Props.TransDescentTopInsert
 import AtreeProofs.Props.TransDescentInsertFull
+import AtreeProofs.Props.TransDescentTopRemove
+import AtreeProofs.Props.TransDescentRemoveFull
+import AtreeProofs.Props.TransDescentTopSet
+import AtreeProofs.Props.TransDescentSetFull
 /-
   TRANSLATION EQUIVALENCE, the DESCENT (WP12): the FINAL statements, without any hypothesis about generated code.
 
-  `Array.Insert` / `Array.Append` (array.go), regenerated from the Go source on every run (`Gen/TransSlabs.lean`), run on
+  `Array.Insert` / `Array.Append` / `Array.remove` / `Array.set` (array.go), regenerated from the Go source on every run (`Gen/TransSlabs.lean`), run on
   the handle of a valid model array (`ArrInv`) over a heap that holds its tree, with a depth argument that covers the
-  tree: they return what the model's `Arr.insert` / `Arr.append` return on the EMBEDDED tree - no error / the error class
+  tree: they return what the model's `Arr.insert` / `Arr.append` return on the EMBEDDED tree (`Arr.remove`, `Arr.set` likewise) - no error / the error class
   -, the handle is the translation of the model's new handle, the `Ctx` (allocation counter, effects in order) is the
   model's, and the heap holds the model's new tree, the rest untouched (`HeapPost`).  The tail hypotheses of
-  `TransDescentInsert.lean` are discharged by `insSplitTail_all` (`TransDescentInsertFull.lean`).
+  `TransDescentInsert / Remove / Set.lean` are discharged by `insSplitTail_all`, `RemPath.of_inv`, `splitTailHyp_all`,
+  `morTailHyp_all` (`TransDescent{Insert,Remove,Set}Full.lean`).
 -/
 namespace Atree.TransEq
 open Atree Atree.Gen
@@ -99,5 +104,61 @@ theorem Sl_Array_Insert_heapOf (T : Nat) (hT : legalThreshold T = true) (a : Arr
     · exact h3.gone id hold hnew
     · rw [h3.frame id hold hnew]
       exact heapOf_none a.d a.root id hold
+
+/-- **`Array.remove` over a heap = `Arr.remove` on the embedded tree** (any depth; rebalance, merge at every level,
+    promotion of a single child to root): an index inside the array returns the removed element, the new handle, the
+    model's `Ctx`, a heap that holds the new tree (no identifier is new) - and everything needed to run the next
+    operation; an index past the end returns `IndexOutOfBoundsError`, nothing touched -/
+theorem Sl_Array_remove_heap_full (T : Nat) (hT : legalThreshold T = true) (a : Arr) (i : Nat) (s : HSt) (depth : Nat)
+    (hd : a.d ≤ depth) (hinv : ArrInv T a s.ctx.ctr) (hi : i < 2^64) (hh : Holds s.heap a.d a.root) :
+    (i < a.toList.length → ∃ a' s',
+      TransSl.Array_remove (envH T) depth (trArrH a s) (u64 i) =
+        some (some (a.toList.getD i default), none, trArrH a' s') ∧
+      a.remove T i s.ctx = .ok (a.toList.getD i default, a', s'.ctx) ∧
+      HeapPost s.heap s'.heap a.root a'.root ∧
+      (∀ id ∈ ATree.slabIds a'.d a'.root, id ∈ ATree.slabIds a.d a.root) ∧
+      a'.d ≤ a.d ∧ ArrInv T a' s'.ctx.ctr ∧ a'.toList = a.toList.eraseIdx i ∧ a'.rootID = a.rootID ∧ a'.ty = a.ty) ∧
+    (a.toList.length ≤ i →
+      TransSl.Array_remove (envH T) depth (trArrH a s) (u64 i) = some (none, some .indexOutOfBounds, trArrH a s)) :=
+  Sl_Array_remove_heap_arrInv T hT a i s depth hd hinv hi hh (RemPath.of_inv hT a.addr a.d a.root true i s.ctx hinv.tree)
+
+/-- **`Array.set` over a heap = `Arr.set` on the embedded tree** (any depth; child split, rebalance, merge at every
+    level, root split, promotion).  `FreshFree`: the storage holds nothing under identifiers beyond the allocation
+    counter (what a real storage guarantees; it makes the frame clause of `HeapPost` meaningful for a slab that is
+    allocated by a split further down and dropped by a merge higher up in the same operation). -/
+theorem Sl_Array_set_heap_full (T : Nat) (hT : legalThreshold T = true) (a : Arr) (i : Nat) (v : Elem) (s : HSt)
+    (depth : Nat) (hd : a.d ≤ depth) (hinv : ArrInv T a s.ctx.ctr) (hfree : FreshFree a.addr s)
+    (hv : ValueOk v) (hh : Holds s.heap a.d a.root) (hi : i < 2^64) :
+    match a.set T i v s.ctx with
+    | .ok (old, a', c') => ∃ s', TransSl.Array_set (envH T) depth (trArrH a s) (u64 i) (some v) =
+          some (some old, none, trArrH a' s') ∧ s'.ctx = c' ∧ HeapPost s.heap s'.heap a.root a'.root
+    | .error e => e = .indexOutOfBounds ∧
+        TransSl.Array_set (envH T) depth (trArrH a s) (u64 i) (some v) =
+          some (none, some .indexOutOfBounds, trArrH a s) :=
+  Sl_Array_set_heap_inv T hT a i v s depth hd hinv hfree hv hh hi
+    (fun d' _ => ⟨splitTailHyp_all T hT d', morTailHyp_all T hT d'⟩)
+
+/-- … in the chaining form: the result re-establishes every hypothesis -/
+theorem Sl_Array_set_heap_full_ok (T : Nat) (hT : legalThreshold T = true) (a : Arr) (i : Nat) (v : Elem) (s : HSt)
+    (depth : Nat) (hd : a.d ≤ depth) (hinv : ArrInv T a s.ctx.ctr) (hfree : FreshFree a.addr s)
+    (hv : ValueOk v) (hh : Holds s.heap a.d a.root) (hlt : i < a.count) :
+    ∃ a' c' s', a.set T i v s.ctx = .ok (a.toList.getD i default, a', c') ∧
+      TransSl.Array_set (envH T) depth (trArrH a s) (u64 i) (some v) =
+        some (some (a.toList.getD i default), none, trArrH a' s') ∧ s'.ctx = c' ∧
+      HeapPost s.heap s'.heap a.root a'.root ∧
+      ArrInv T a' s'.ctx.ctr ∧ a'.addr = a.addr ∧ FreshFree a'.addr s' ∧ Holds s'.heap a'.d a'.root ∧
+      a'.toList = a.toList.set i (toStorable T a.addr v s.ctx).1 :=
+  Sl_Array_set_heap_ok T hT a i v s depth hd hinv hfree hv hh hlt
+    (setTailsOn_of_hyps T a.addr hT a.d a.root i v s.ctx
+      (fun d' _ => ⟨splitTailHyp_all T hT d', morTailHyp_all T hT d'⟩))
+
+/-- the array's own heap holds nothing beyond the allocation counter -/
+theorem FreshFree_heapOf (T : Nat) (a : Arr) (c : Ctx) (hinv : ArrInv T a c.ctr) :
+    FreshFree a.addr ⟨heapOf a.d a.root, c⟩ := by
+  intro id _ hidx
+  apply heapOf_none
+  intro hmem
+  have := (hinv.ids.2 id hmem).2.2
+  exact absurd this (by simp only [HSt.ctx] at hidx ⊢; omega)
 
 end Atree.TransEq
